@@ -64,8 +64,11 @@ Definition segsF (verts : list (float * float)) : list (Seg FOps) :=
 Definition seg_to_Q (s : Seg FOps) : Seg QOps :=
   (mkV2 (F2Q (vx (fst s))) (F2Q (vy (fst s))), mkV2 (F2Q (vx (snd s))) (F2Q (vy (snd s)))).
 
-(* ---- tree case: id, cut points expected exact, qtMaxLevel, vertices, dumped tree, chains hint *)
-Definition tcase := (N * bool * N * list (float * float) * ftree * list (list fseg))%type.
+(* ---- tree case: id, mode, qtMaxLevel, vertices, dumped tree, chains hint.
+   mode 0: the tolerant certificate must hold; 1: also the exact (tolerance 0) winding certificate;
+   2: input of a known finding (a vertex within the clipping tolerance of a split line): only
+   "model rebuilds the dump" is required *)
+Definition tcase := (N * N * N * list (float * float) * ftree * list (list fseg))%type.
 Definition tid (c : tcase) : N := let '(id, _, _, _, _, _) := c in id.
 (* The certificate on a dumped tree.  chain_check, box_check and nondeg_b do arithmetic and run at
    QOps (exact rationals).  perm_check, ray_check and owner_check only compare coordinates; on
@@ -92,7 +95,7 @@ Definition tcheck (c : tcase) : bool * bool * bool * bool :=
 Definition tok (c : tcase) : bool :=
   let '(id, ex, _, _, _, _) := c in
   let '(same, certtol, w0, full0) := tcheck c in
-  same && certtol && (negb ex || w0).
+  same && (N.eqb ex 2 || (certtol && (negb (N.eqb ex 1) || w0))).
 Definition mismatches_tree (cs : list tcase) : list N := map tid (filter (fun c => negb (tok c)) cs).
 (* information: trees on which the exact (tolerance 0) winding certificate does not hold *)
 Definition inexact_tree (cs : list tcase) : list N :=
@@ -112,13 +115,26 @@ Definition qclose2 (g : float) (d2 : Q) (s : Q) : bool :=
   let b := (e * (gq + s)) * (2 * gq + e * (gq + s)) in
   Qle_bool (Qabs.Qabs (gq * gq - d2)) b.
 
+Definition fnear0 (scale x y : float) : bool :=
+  PrimFloat.leb (PrimFloat.abs (x - y)) (0x1p-40 * scale)%float.
+Definition tree_scale_f (t : ftree) : float :=
+  match t with
+  | FN => 1%float
+  | FL (a, b, c, d) _ _ _ | FQ (a, b, c, d) _ _ _ _ _ _ =>
+      let m (x y : float) := if PrimFloat.leb x y then y else x in
+      m (m (PrimFloat.abs a) (PrimFloat.abs b)) (m (PrimFloat.abs c) (PrimFloat.abs d))
+  end.
+
 Definition pcheck (treeF : qt FOps (LineInfo FOps)) (lisF : list (LineInfo FOps))
-           (sq : list (Seg QOps)) (scale : Q) (pt : epoint) : bool * bool :=
+           (sq : list (Seg QOps)) (scale : Q) (sf : float) (pt : epoint) : bool * bool :=
   let '(id, doq, bnd, p, gf, gs) := pt in
   let pF := @iv2 FOps fid p in
   let mf := @eval_fast FOps treeF pF in
   let ms := @eval_slow FOps lisF pF in
-  let okF := fclose mf gf && fclose ms gs && (bnd || (sign_same mf gf && sign_same ms gs)) in
+  (* on (or within rounding of) the boundary the value is 0 up to 2^-40*scale and its sign is
+     immaterial; elsewhere: relative agreement and the same sign *)
+  let okF := if bnd then fnear0 sf mf gf && fnear0 sf ms gs
+             else fclose mf gf && fclose ms gs && sign_same mf gf && sign_same ms gs in
   let okQ :=
     if doq then
       let pQ := @iv2 QOps fq p in
@@ -136,11 +152,11 @@ Definition eprep (c : ecase) :=
   let '(verts, tree, pts) := c in
   let sf := segsF verts in
   (@qt_map FOps _ _ (@new_line_info FOps) (@itree FOps fid tree), @convert_lines FOps sf,
-   map seg_to_Q sf, tree_scale tree, pts).
+   map seg_to_Q sf, tree_scale tree, tree_scale_f tree, pts).
 Definition pid (pt : epoint) : N := let '(id, _, _, _, _, _) := pt in id.
 Definition mismatches_eval (cs : list ecase) : list N :=
-  flat_map (fun c => let '(tf, lf, sq, sc, pts) := eprep c in
-                     map pid (filter (fun pt => negb (fst (pcheck tf lf sq sc pt))) pts)) cs.
+  flat_map (fun c => let '(tf, lf, sq, sc, scf, pts) := eprep c in
+                     map pid (filter (fun pt => negb (fst (pcheck tf lf sq sc scf pt))) pts)) cs.
 Definition inexact_eval (cs : list ecase) : list N :=
-  flat_map (fun c => let '(tf, lf, sq, sc, pts) := eprep c in
-                     map pid (filter (fun pt => negb (snd (pcheck tf lf sq sc pt))) pts)) cs.
+  flat_map (fun c => let '(tf, lf, sq, sc, scf, pts) := eprep c in
+                     map pid (filter (fun pt => negb (snd (pcheck tf lf sq sc scf pt))) pts)) cs.
